@@ -6,7 +6,7 @@ PROP = "C02"
 
 def kw(rng, i):
     return {"max_requests": rng.choice([None, None, 2, 1]), "queue_size": rng.choice([None, 10]),
-            "policy": rng.choice(["fifo", "random", "lifo"]), "crashes": False}
+            "policy": rng.choice(["fifo", "random", "lifo"]), "crashes": False, "worker": rng.choice(["asyncio", "trio"])}
 
 
 def run(ctx):
